@@ -10,7 +10,9 @@ class Ctx:
         self.F.summaries()
         # helpers extracted from traversal kernels are spliced back into their callers (see inline.py)
         from .inline import absorb_kernel_helpers
-        absorbed, new = absorb_kernel_helpers(self.F, lambda b: _k.kernel_params(self.F, b) is not None)
+        absorbed, new = absorb_kernel_helpers(
+            self.F, lambda b: _k.kernel_params(self.F, b) is not None or
+            (b.get('impl_self_q', '').endswith('::node::Node') and not b.get('impl_trait') and b.get('name') in ('connect', 'try_connect', 'disconnect', 'isolate')))
         self.F.absorbed = absorbed
         self.F.bodies.update(new)
         self.tier = tier
